@@ -13,7 +13,7 @@ from ..cfg import CFG, ENTRY, own_exprs, walk_own
 from ..core import PKG, Report
 from ..jinja_interp import expr_text
 from .siblings import Path as SimPath
-from .siblings import PathSim
+from .siblings import PathSim, error_locals, path_returns_error
 
 LEVEL = ("sibling / guard rules: (1) every get_type_string implementation evaluates an Unset-mentioning constant exactly when `not "
          "no_optional and not required` (path simulation over the boolean atoms, all overrides); to_string emits a default iff the "
@@ -340,16 +340,20 @@ def run(rep: Report, ctx: Any) -> str:
         if not fw.sources(f):
             continue
         n_fw += 1
-        cfg_ = CFG(f.node)
-        errs = error_names(f.node)
-        bad_returns = []
-        for r in cfg_.stmts():
+        # path by path (PathSim explores every decision both ways): a path that ends in `return <value>` either returns an error -
+        # what it returns constructs one, or is a local that on THIS path holds one (bound to an error constructor, or narrowed by the
+        # arm of an isinstance(<local>, <error class>) test the path took) - or has handed the requiredness on before / in the return
+        errs = error_locals(f.node)
+        bad_returns: list[ast.Return] = []
+        for p in PathSim(f.node).paths():
+            r = p.end
             if not isinstance(r, ast.Return) or r.value is None or (isinstance(r.value, ast.Constant) and r.value.value is None):
                 continue
-            if returns_error(r, errs) or fw.in_stmt(f, r):
+            if any((fw.in_stmt(f, ev.node) if ev.kind == "stmt" else bool(fw.in_expr(f, ev.node))) for ev in p.events):
                 continue
-            if not cfg_.every_path_passes(ENTRY, r, lambda n_: isinstance(n_, ast.stmt) and fw.in_stmt(f, n_)):
-                bad_returns.append(r)
+            if path_returns_error(p, errs) or any(r is x for x in bad_returns):
+                continue
+            bad_returns.append(r)
         rep.check(not bad_returns, "R10.8", f"{short(f)}::requiredness-forwarded",
                   f"a path returns `{norm(bad_returns[0].value)[:60] if bad_returns else ''}` without having passed on the requiredness of the "
                   f"declaration ({', '.join(sorted(fw.sources(f)))}): the result carries whatever requiredness it was made with elsewhere",
@@ -911,6 +915,7 @@ class _TplEval:
 
 
 UNROLL = 8
+CALLER = "\0caller"   # key of a macro's bindings under which the body of the call block that invoked it is kept (no template name can collide)
 
 
 def _frags(body: list[nodes.Node], ti: Any, jx: Any = None, tests: "list[nodes.Node] | None" = None, sets: bool = False) -> Iterator[tplq.Frag]:
@@ -977,6 +982,33 @@ class _Walk:
             return t2.macros[mn], c, t2
         return None
 
+    @staticmethod
+    def bind_call(macro: nodes.Macro, call: nodes.Call, b: dict[str, Any]) -> dict[str, Any]:
+        """the macro's parameters as the expressions the call hands over (in the caller's terms), defaults for the rest"""
+        b2: dict[str, Any] = {}
+        params = [a.name for a in macro.args]
+        for a, d in zip(macro.args[len(macro.args) - len(macro.defaults):], macro.defaults):
+            b2[a.name] = d
+        for i, a in enumerate(call.args):
+            if i < len(params):
+                b2[params[i]] = _clone(a, b) if b else a
+        for kw in call.kwargs:
+            b2[kw.key] = _clone(kw.value, b) if b else kw.value
+        return b2
+
+    @staticmethod
+    def caller_body(c: nodes.Node, b: dict[str, Any]) -> "tuple[list, Any, dict[str, Any]] | None":
+        """the output expression is `caller()` of a macro that was invoked by a call block: (the block's body, its template, the
+        bindings at the place where it is written)"""
+        while isinstance(c, nodes.Filter) and c.node is not None:
+            c = c.node
+        if isinstance(c, nodes.Call) and isinstance(c.node, nodes.Name) and c.node.name == "caller" and "caller" not in b and CALLER in b:
+            body, ti, b0, params = b[CALLER]
+            if params:
+                b0 = {**b0, **{p: (_clone(a, b) if b else a) for p, a in zip(params, c.args)}}
+            return body, ti, b0
+        return None
+
     # -- the walk -----------------------------------------------------------------------------------------------------------------
     def cond(self, t: nodes.Node, b: dict[str, Any]) -> nodes.Node:
         t2 = _clone(t, b) if b else t
@@ -992,19 +1024,15 @@ class _Walk:
                     if isinstance(c, nodes.TemplateData):
                         yield _frag("data", c.data, c.lineno, guards, gnodes, loops, c, insts=insts)
                         continue
+                    cb = self.caller_body(c, b)
+                    if cb is not None and len(stack) < 6:
+                        yield from self.walk(cb[0], cb[1], guards, gnodes, loops, insts, cb[2], stack + (("caller", str(id(cb[0]))),))
+                        continue
                     mc = self.macro_of(c, ti, b)
                     if mc is not None and (mc[2].name, mc[0].name) not in stack and len(stack) < 4:
                         macro, call, t2 = mc
-                        b2: dict[str, Any] = {}
-                        params = [a.name for a in macro.args]
-                        for a, d in zip(macro.args[len(macro.args) - len(macro.defaults):], macro.defaults):
-                            b2[a.name] = d
-                        for i, a in enumerate(call.args):
-                            if i < len(params):
-                                b2[params[i]] = _clone(a, b) if b else a
-                        for kw in call.kwargs:
-                            b2[kw.key] = _clone(kw.value, b) if b else kw.value
-                        yield from self.walk(macro.body, t2, guards, gnodes, loops, insts, b2, stack + ((t2.name, macro.name),))
+                        yield from self.walk(macro.body, t2, guards, gnodes, loops, insts, self.bind_call(macro, call, b),
+                                             stack + ((t2.name, macro.name),))
                         continue
                     c2 = _clone(c, b) if b else c
                     yield _frag("expr", expr_text(c2), c.lineno, guards, gnodes, loops, c, expr=c2, insts=insts)
@@ -1033,7 +1061,25 @@ class _Walk:
                 t2 = self.jx.templates.get(n.template.value) if self.jx is not None and isinstance(n.template, nodes.Const) else None
                 if t2 is not None and ("include", t2.name) not in stack and len(stack) < 4:
                     yield from self.walk(t2.tree.body, t2, guards, gnodes, loops, insts, b, stack + (("include", t2.name),))
-            elif isinstance(n, (nodes.With, nodes.Scope, nodes.CallBlock, nodes.FilterBlock, nodes.AssignBlock)):
+            elif isinstance(n, nodes.CallBlock):
+                # `{% call m(args) %}body{% endcall %}` is a call of m in which `caller()` stands for the body (in the terms of
+                # the place where the block is written)
+                mc = self.macro_of(n.call, ti, b)
+                if mc is not None and (mc[2].name, mc[0].name) not in stack and len(stack) < 4:
+                    macro, call, t2 = mc
+                    b2 = self.bind_call(macro, call, b)
+                    b2[CALLER] = (n.body, ti, b, [a.name for a in n.args if isinstance(a, nodes.Name)])
+                    yield from self.walk(macro.body, t2, guards, gnodes, loops, insts, b2, stack + ((t2.name, macro.name),))
+                else:
+                    yield from self.walk(n.body, ti, guards, gnodes, loops, insts, b, stack)
+            elif isinstance(n, nodes.AssignBlock) and self.sets and isinstance(n.target, nodes.Name) and \
+                    all(isinstance(x, nodes.Output) for x in n.body):
+                # `{% set x %}text {{ e }}{% endset %}` defines x as the concatenation of its pieces: nothing is emitted here
+                parts = [nodes.Const(c.data, lineno=c.lineno) if isinstance(c, nodes.TemplateData) else (_clone(c, b) if b else c)
+                         for x in n.body for c in x.nodes]
+                v2 = nodes.Concat(parts, lineno=n.lineno)
+                yield _frag("set", expr_text(v2), n.lineno, guards, gnodes, loops, n, expr=v2, target=n.target.name, insts=insts)
+            elif isinstance(n, (nodes.With, nodes.Scope, nodes.FilterBlock, nodes.AssignBlock)):
                 yield from self.walk(getattr(n, "body", []), ti, guards, gnodes, loops, insts, b, stack)
             elif isinstance(n, nodes.Macro):
                 continue
@@ -1147,6 +1193,31 @@ def _gen_text(fr: tplq.Frag, at: int, env: dict[str, bool], tev: "_TplEval", rol
         return UNKNOWN
 
     return rec(fr.expr, at, 0)   # type: ignore[attr-defined]
+
+
+def generated_variants(m: Any, ti: Any, jx: Any, role: Any, fixed: "dict[str, bool] | None" = None,
+                       limit: int = 12) -> "list[tuple[dict[str, bool], str]] | None":
+    """the code a macro generates, once per valuation of the template conditions it depends on (guards around its pieces, tests of
+    conditional expressions, guards of the `set` definitions it reads): [(valuation, text)].  Macro calls and call blocks are
+    followed, `set` variables read as their definitions, `role(expression, its text, position, definitions)` names the
+    placeholders of the expressions the caller knows, everything else that is not text reads UNKNOWN.  None: more than `limit`
+    conditions."""
+    frs = list(enumerate(_frags(m.body, ti, jx, sets=True)))
+    tev = _TplEval([fr for _, fr in frs])
+    names: list[str] = []
+    for i, fr in frs:
+        for a in _guard_atoms(fr) + (tev.atoms(fr.expr, i) if fr.kind == "expr" else []):
+            if a not in names:
+                names.append(a)
+    fixed = dict(fixed or {})
+    free = [a for a in names if a not in fixed]
+    if len(free) > limit:
+        return None
+    out = []
+    for env0 in tplq.assignments(free):
+        env = {**env0, **fixed}
+        out.append((env, "".join(_gen_text(fr, i, env, tev, role) for i, fr in frs if fr.kind != "set" and _guard_holds(fr, env))))
+    return out
 
 
 class _GenRun:
